@@ -94,6 +94,12 @@ impl Scalar {
 
 impl Point {
 
+    /// Verification hook (read-only): exposes the private `split_mu()`.
+    #[cfg(feature = "verif_hooks")]
+    pub fn verif_split_mu(k: &Scalar) -> (u128, u32, u128, u32) {
+        Self::split_mu(k)
+    }
+
     /// The group neutral element.
     pub const NEUTRAL: Self = Self {
         E: GF255e::MINUS_ONE,
